@@ -2,7 +2,7 @@
    found file pasted in place of that line, assemble to the same bytes, labels and constants -- or fail alike.
    Reader (ReaderSplice) + front end and passes under a renaming of lines (ParseRelabel, Relabel). *)
 From Coq Require Import ZArith List Bool String Ascii Lia.
-From BB Require Import Base.PyBase Model.Items Model.Parser Model.Passes Model.Reader
+From BB Require Import Base.PyBase Model.Items Model.Lexer Model.Parser Model.Passes Model.Reader
   Proofs.ReaderSplice Proofs.Program Proofs.Whole Proofs.ParseRelabel.
 Import ListNotations.
 Open Scope Z_scope.
@@ -120,3 +120,57 @@ Theorem whole_cwd fuel fs cwd1 cwd2 incs top consts labels cmp :
   is_abs top = true -> all_abs incs -> fs_exists fs cwd1 top = true ->
   assemble_model fuel fs cwd1 incs top consts labels cmp = assemble_model fuel fs cwd2 incs top consts labels cmp.
 Proof. intros Ht Hi He. unfold assemble_model. rewrite (read_lines_cwd fuel fs cwd1 cwd2 incs top Ht Hi He). reflexivity. Qed.
+
+(* ---- C13 on the whole model: the result depends on the TOKENS of the lines that were read, on nothing else -------------------- *)
+Definition same_lex (a b : Items.line * string) : Prop := lex_tokens (snd a) = lex_tokens (snd b).
+Theorem same_tokens_same_result ta tb consts labels cmp :
+  Forall2 same_lex ta tb ->
+  tshape (assemble_text ta consts labels cmp) = tshape (assemble_text tb consts labels cmp).
+Proof.
+  intro H. set (l0 := {| lfile := ""; lnum := 0 |}). set (f := fun _ : Items.line => l0).
+  rewrite <- (tshape_ftres f (assemble_text ta _ _ _)), <- (tshape_ftres f (assemble_text tb _ _ _)).
+  rewrite <- !assemble_text_relabel. f_equal. apply program_rewrite.
+  unfold retext, f. clear f. induction H as [|a b ta tb Hab _ IH]; cbn [map]; constructor; auto.
+  split; [reflexivity|exact Hab].
+Qed.
+Theorem whole_same_tokens fuel1 fs1 cwd1 incs1 top1 fuel2 fs2 cwd2 incs2 top2 consts labels cmp la lb :
+  read_lines fuel1 fs1 cwd1 incs1 top1 = ROk la -> read_lines fuel2 fs2 cwd2 incs2 top2 = ROk lb ->
+  Forall2 (fun a b => lex_tokens (l_contents a) = lex_tokens (l_contents b)) la lb ->
+  wshape (assemble_model fuel1 fs1 cwd1 incs1 top1 consts labels cmp) =
+  wshape (assemble_model fuel2 fs2 cwd2 incs2 top2 consts labels cmp).
+Proof.
+  intros Ea Eb H. unfold assemble_model. rewrite Ea, Eb.
+  assert (S : tshape (assemble_text (map to_text la) consts labels cmp) = tshape (assemble_text (map to_text lb) consts labels cmp)).
+  { apply same_tokens_same_result. clear Ea Eb. induction H as [|a b x y Hab _ IH]; cbn [map]; constructor; [exact Hab|exact IH]. }
+  destruct (assemble_text (map to_text la) consts labels cmp) as [ra|[l1|x1]|],
+           (assemble_text (map to_text lb) consts labels cmp) as [rb|[l2|x2]|]; exact S.
+Qed.
+
+(* lines without tokens (comment-only lines; blank lines are already dropped by the reader) do not count either *)
+Definition no_tokens (t : string) : bool := match lex_tokens t with Some [] => true | _ => false end.
+Definition keep_text (p : Items.line * string) : bool := negb (no_tokens (snd p)).
+Lemma front_items_filter ls : front_items (filter keep_text ls) = front_items ls.
+Proof.
+  induction ls as [|[l t] r IH]; [reflexivity|]. cbn [filter]. unfold keep_text at 1, no_tokens. cbn [snd].
+  destruct (lex_tokens t) as [[|t0 ts]|] eqn:E; cbn [negb front_items]; unfold front_line; rewrite E; try rewrite IH; reflexivity.
+Qed.
+Theorem whole_same_tokens_modulo_comment_lines fuel1 fs1 cwd1 incs1 top1 fuel2 fs2 cwd2 incs2 top2 consts labels cmp la lb :
+  read_lines fuel1 fs1 cwd1 incs1 top1 = ROk la -> read_lines fuel2 fs2 cwd2 incs2 top2 = ROk lb ->
+  Forall2 (fun a b => lex_tokens (l_contents a) = lex_tokens (l_contents b))
+          (filter (fun a => negb (no_tokens (l_contents a))) la) (filter (fun b => negb (no_tokens (l_contents b))) lb) ->
+  wshape (assemble_model fuel1 fs1 cwd1 incs1 top1 consts labels cmp) =
+  wshape (assemble_model fuel2 fs2 cwd2 incs2 top2 consts labels cmp).
+Proof.
+  intros Ea Eb H. unfold assemble_model. rewrite Ea, Eb.
+  assert (S : tshape (assemble_text (map to_text la) consts labels cmp) = tshape (assemble_text (map to_text lb) consts labels cmp)).
+  { unfold assemble_text. rewrite <- (front_items_filter (map to_text la)), <- (front_items_filter (map to_text lb)).
+    fold (assemble_text (filter keep_text (map to_text la)) consts labels cmp).
+    fold (assemble_text (filter keep_text (map to_text lb)) consts labels cmp).
+    apply same_tokens_same_result. clear Ea Eb.
+    assert (F : forall l, filter keep_text (map to_text l) = map to_text (filter (fun a => negb (no_tokens (l_contents a))) l)).
+    { induction l as [|a l IH]; [reflexivity|]. cbn [map filter]. unfold keep_text at 1. cbn [to_text snd].
+      destruct (negb (no_tokens (l_contents a))); cbn [map]; rewrite IH; reflexivity. }
+    rewrite !F. induction H as [|a b x y Hab _ IH]; cbn [map]; constructor; [exact Hab|exact IH]. }
+  destruct (assemble_text (map to_text la) consts labels cmp) as [ra|[l1|x1]|],
+           (assemble_text (map to_text lb) consts labels cmp) as [rb|[l2|x2]|]; exact S.
+Qed.
